@@ -47,6 +47,49 @@ Theorem C09_infwedge_surfaces_iff_inside : forall start interior p,
 Proof. exact wedge_surfaces_iff_inside. Qed.
 Print Assumptions C09_infwedge_surfaces_iff_inside.
 
+Theorem C09_prism_surfaces_iff_inside : forall n a hh orient p, (0 < n)%nat ->
+  on_any (surfaces_of 0 (PPrism n a hh orient)) p = false ->
+  (all_hold (surfaces_of 0 (PPrism n a hh orient)) p = true <-> inside_prim (PPrism n a hh orient) p = true).
+Proof. exact prism_surfaces_iff_inside. Qed.
+Print Assumptions C09_prism_surfaces_iff_inside.
+
+(** GenPrism, face by face (the assembly over the polygon is not proved: partial).
+    Twisted face: for ANY four corner points the emitted general quadric is
+    the interpolated polygon edge; planar face with parallel bottom/top edges. *)
+Theorem C09_genprism_twisted_face_partial : forall hz (li lj hi_ hj : R * R) x y z, hz <> 0 ->
+  let s := (z + hz) / (2 * hz) in
+  let q := twisted_quadric hz (V3 (fst li) (snd li) (- hz)) (V3 (fst lj) (snd lj) (- hz))
+                              (V3 (fst hj) (snd hj) hz) (V3 (fst hi_) (snd hi_) hz) in
+  on_surface q (V3 x y z) = false ->
+  (sense_holds BIn q (V3 x y z) = true <-> left_of (lerp_pt s li hi_) (lerp_pt s lj hj) x y = true).
+Proof. exact genprism_twisted_face_iff. Qed.
+Print Assumptions C09_genprism_twisted_face_partial.
+
+Theorem C09_genprism_planar_face_partial : forall hz (li lj hi_ hj : R * R) lam x y z,
+  0 < hz -> 0 < lam -> - hz < z < hz ->
+  fst hj - fst hi_ = lam * (fst lj - fst li) -> snd hj - snd hi_ = lam * (snd lj - snd li) ->
+  let s := (z + hz) / (2 * hz) in
+  let ilo := V3 (fst li) (snd li) (- hz) in
+  let jlo := V3 (fst lj) (snd lj) (- hz) in
+  let ihi := V3 (fst hi_) (snd hi_) hz in
+  let N := cross (vsub jlo ilo) (vsub ihi ilo) in
+  0 < dot N N ->
+  let pl := plane_pt (make_unit_vector N) ilo in
+  on_surface pl (V3 x y z) = false ->
+  (sense_holds BIn pl (V3 x y z) = true <-> left_of (lerp_pt s li hi_) (lerp_pt s lj hj) x y = true).
+Proof. exact genprism_planar_face_iff. Qed.
+Print Assumptions C09_genprism_planar_face_partial.
+
+(** assembly of a non-degenerate GenPrism from faces that agree at p (twisted: always;
+    planar: parallel edges); missing: the branch selection by soft_equal on the normals *)
+Theorem C09_genprism_surfaces_iff_inside_partial : forall tol hz lo hi p,
+  0 < hz -> length lo = length hi ->
+  on_any [(BOut, planeZ (- hz)); (BIn, planeZ hz)] p = false ->
+  Forall4 (face_agrees tol hz p) lo (rot1 lo) hi (rot1 hi) ->
+  (all_hold (genprism_surfaces tol hz lo hi DegNone) p = true <-> inside_genprism hz lo hi p = true).
+Proof. exact genprism_surfaces_iff_inside_partial. Qed.
+Print Assumptions C09_genprism_surfaces_iff_inside_partial.
+
 (** Parallelepiped AS BUILT agrees with the documented solid when alpha = 0
     (sines / cosines of theta, phi explicit; cos(theta) > 0 for theta in [0, 1/4) turn) *)
 Theorem C09_parallelepiped_surfaces_iff_inside_alpha0 : forall hx hy hz sinth costh sinphi cosphi p,
@@ -94,6 +137,12 @@ Theorem C09_sphere_interior_bbox_refuted : exists r, 0 < r /\ ~ bbox_int_sound (
 Proof. exact sphere_bbox_int_refuted. Qed.
 Print Assumptions C09_sphere_interior_bbox_refuted.
 
+Theorem C09_soft_dedup_within_tol_partial : forall ax d d' eps (p : vec3 R) sn,
+  Rabs (d - d') <= eps -> eps < Rabs (vget ax p - d) ->
+  sense_holds sn (SPlaneAligned ax d) p = sense_holds sn (SPlaneAligned ax d') p.
+Proof. exact soft_dedup_plane_aligned_partial. Qed.
+Print Assumptions C09_soft_dedup_within_tol_partial.
+
 (** ** objects *)
 Theorem C09_csg_semantics : forall tol (a b : obj R) l p,
   (inside tol (Neg a) p = true <-> ~ inside tol a p = true) /\
@@ -120,6 +169,22 @@ Theorem C09_transform_order : forall (a b : transformation R) p, orth (tf_rot a)
   tf_down (tf_compose a b) p = tf_down b (tf_down a p).
 Proof. exact tf_down_compose. Qed.
 Print Assumptions C09_transform_order.
+
+(** azimuthal slices (SolidEnclosedAngle::make_wedge + the negation for interior > 1/2,
+    start angle reduced modulo one turn) evaluate to the polar-angle definition *)
+Theorem C09_enclosed_angle : forall tol tr s i p, 0 < i <= 1 ->
+  forallb (fun c => csg_off c p) (build_enclosed tol tr (Some (s, i))) = true ->
+  forallb (fun c => eval_csg c p) (build_enclosed tol tr (Some (s, i))) = in_angle s i (tf_down tr p).
+Proof. exact enclosed_eval. Qed.
+Print Assumptions C09_enclosed_angle.
+
+(** poly-solids are covered by [good] as soon as their stacked primitives are good *)
+Theorem C09_polysolid_segments : forall tol mk zs ro ri,
+  (forall z0 z1 r0 r1, In (z0, z1, r0, r1) (segments zs ro) -> prim_good tol (mk r0 r1 ((z1 - z0) / 2))) ->
+  (forall l z0 z1 q0 q1, ri = Some l -> In (z0, z1, q0, q1) (segments zs l) -> prim_good tol (mk q0 q1 ((z1 - z0) / 2))) ->
+  Forall (seg_ok tol mk) (poly_pairs zs ro ri).
+Proof. exact seg_ok_of_prims. Qed.
+Print Assumptions C09_polysolid_segments.
 
 (** ** the construction model evaluates to the definition *)
 Theorem C09_build_eval_iff_inside : forall tol o, good tol o ->
